@@ -318,9 +318,9 @@ def gen_rel(rng, shape):
         body = gen_lin(rng, vs, 0, rng.randint(1, 2))
         k1, k2 = rng.choice([4, 8, 2]), rng.choice([4, 4, 8])
         lhs = [{"t": "abs", "k": k1, "items": body}, {"t": "abs", "k": k2, "items": [dict(b) for b in body]}] + gen_lin(rng, vs, 0, rng.randint(0, 1))
-        if rng.random() < 0.4:   # same linear part, another constant offset
-            lhs[1] = {"t": "abs", "k": k2, "items": [dict(b) for b in body] + [{"t": "num", "k": rng.choice([4, -4, 8])}]}
         r = rng.random()
+        if r >= 0.35 and rng.random() < 0.4:   # same linear part, another constant offset
+            lhs[1] = {"t": "abs", "k": k2, "items": [dict(b) for b in body] + [{"t": "num", "k": rng.choice([4, -4, 8])}]}
         if rng.random() < 0.25:
             # two absolute values whose contents differ only from the FIFTH significant digit on (|x - 10001| + |x - 10004|): two terms, not one
             big = rng.choice([10001, 20001, 30002]) * Q
@@ -332,13 +332,30 @@ def gen_rel(rng, shape):
             if op == ">=":
                 sides.reverse()
             return {"op": op, "sides": sides}
-        if r < 0.3:
-            # a further occurrence that cancels the first one exactly: the running coefficient of the term passes through zero
-            lhs.insert(1, {"t": "abs", "k": -k1, "items": [dict(b) for b in body]})
-            if rng.random() < 0.5:
-                lhs[0], lhs[1] = lhs[1], lhs[0]
-                lhs[0], lhs[2] = lhs[2], lhs[0]
-        elif r < 0.45:
+        if r < 0.35:
+            # occurrences that cancel exactly: the running coefficient of the term passes through zero
+            mode = rng.random()
+            rest = lhs[2:] or gen_lin(rng, vs, 0, 1)
+            if mode < 0.4:
+                # k1|b| - k1|b| + k3|b|: what is left is k3|b|, whatever the order in which the occurrences are combined
+                k3 = rng.choice([4, 8, 12, 16])
+                lhs = [{"t": "abs", "k": k1, "items": body}, {"t": "abs", "k": -k1, "items": [dict(b) for b in body]},
+                       {"t": "abs", "k": k3, "items": [dict(b) for b in body]}] + rest
+                if rng.random() < 0.3:
+                    lhs[0], lhs[1] = lhs[1], lhs[0]
+            elif mode < 0.7:
+                # the term cancels altogether: -k|b| + k|b| + rest means rest
+                lhs = [{"t": "abs", "k": -k1, "items": body}, {"t": "abs", "k": k1, "items": [dict(b) for b in body]}] + rest
+                if rng.random() < 0.5:
+                    lhs[0], lhs[1] = lhs[1], lhs[0]
+                if rng.random() < 0.3:
+                    lhs.insert(1, {"t": "var", "k": rng.choice(KS), "n": rng.choice(vs)})
+            else:
+                lhs.insert(1, {"t": "abs", "k": -k1, "items": [dict(b) for b in body]})
+                if rng.random() < 0.5:
+                    lhs[0], lhs[1] = lhs[1], lhs[0]
+                    lhs[0], lhs[2] = lhs[2], lhs[0]
+        elif r < 0.5:
             lhs.insert(rng.randint(0, 1), {"t": "abs", "k": 0, "items": [dict(b) for b in body]})      # written with the coefficient 0
         else:
             rng.shuffle(lhs)
